@@ -169,20 +169,49 @@ def audit(props):
     return len(allnames), discharged, details, problems
 
 
+class Hang(Exception):
+    """a driver did not answer a request within the deadline (the process has been killed)"""
+    def __init__(self, argv0, req, seconds):
+        super().__init__("no answer within %ds: %s" % (seconds, json.dumps(req)[:300]))
+        self.argv0, self.req, self.seconds = argv0, req, seconds
+
+
+REQUEST_TIMEOUT = int(os.environ.get("VERIF_REQUEST_TIMEOUT", "120"))
+
+
 class Proc:
-    """a line-protocol process (implsrv or modeldrv)"""
+    """a line-protocol process (implsrv or modeldrv); every answer has a deadline"""
     def __init__(self, argv, env=None):
+        import queue, threading
         self.argv = argv
         self.p = subprocess.Popen(argv, stdin=subprocess.PIPE, stdout=subprocess.PIPE, stderr=subprocess.DEVNULL,
                                   text=True, bufsize=1, env=env)
+        self.q = queue.Queue()
+
+        def pump():
+            try:
+                for line in self.p.stdout:
+                    self.q.put(line)
+            except Exception:
+                pass
+            self.q.put("")           # end of stream
+        threading.Thread(target=pump, daemon=True).start()
+
+    def _readline(self, req):
+        import queue
+        try:
+            return self.q.get(timeout=REQUEST_TIMEOUT)
+        except queue.Empty:
+            self.p.kill()
+            raise Hang(self.argv[0], req, REQUEST_TIMEOUT)
 
     def ask(self, req):
         try:
             self.p.stdin.write(json.dumps(req) + "\n")
             self.p.stdin.flush()
-            line = self.p.stdout.readline()
         except BrokenPipeError:
-            line = ""
+            raise RuntimeError("driver died: %s on %s" % (self.argv[0], json.dumps(req)[:400]))
+        line = self._readline(req)
         if not line:
             raise RuntimeError("driver died: %s on %s" % (self.argv[0], json.dumps(req)[:400]))
         return json.loads(line)
@@ -195,17 +224,17 @@ class Proc:
                 for r in reqs:
                     self.p.stdin.write(json.dumps(r) + "\n")
                 self.p.stdin.flush()
-            except BrokenPipeError:
+            except (BrokenPipeError, ValueError):
                 pass
-        t = threading.Thread(target=w)
+        t = threading.Thread(target=w, daemon=True)
         t.start()
         out = []
-        for _ in reqs:
-            line = self.p.stdout.readline()
+        for k in range(len(reqs)):
+            line = self._readline(reqs[k])
             if not line:
-                raise RuntimeError("driver died: %s" % self.argv[0])
+                raise RuntimeError("driver died: %s on request %d: %s" % (self.argv[0], k, json.dumps(reqs[k])[:300]))
             out.append(json.loads(line))
-        t.join()
+        t.join(timeout=5)
         return out
 
     def close(self):
